@@ -519,7 +519,17 @@ fn site_file(p: &str) -> String {
     format!("{krate}:{file}")
 }
 
-const ALLOC_SINGLE_LIMIT: usize = 16 << 20;
+fn thread_cpu_ms() -> u128 {
+    let mut ts = libc::timespec { tv_sec: 0, tv_nsec: 0 };
+    unsafe {
+        libc::clock_gettime(libc::CLOCK_THREAD_CPUTIME_ID, &mut ts);
+    }
+    (ts.tv_sec as u128) * 1000 + (ts.tv_nsec as u128) / 1_000_000
+}
+
+/// a bounded constant (the largest legitimate request on the pinned tree is 1.6 MB: a lenient list
+/// pre-allocating its capped 4096 elements) plus 32 bytes per input byte
+const ALLOC_SINGLE_LIMIT: usize = 4 << 20;
 const ALLOC_TOTAL_LIMIT: usize = 256 << 20;
 const SLOW_MS: u128 = 400;
 
@@ -532,9 +542,16 @@ impl IsoSpace for Space {
         let d = &self.decs[di];
         iso::clear_refused();
         alloc::reset();
-        let t0 = std::time::Instant::now();
+        // CPU time of this thread, not wall time: immune to scheduling delays on a loaded machine
+        let t0 = thread_cpu_ms();
         let r = par::catch(|| (d.run)(&input));
-        let dt = t0.elapsed().as_millis();
+        let mut dt = thread_cpu_ms().saturating_sub(t0);
+        if dt > SLOW_MS {
+            // confirm: a slow case must be slow twice
+            let t1 = thread_cpu_ms();
+            let _ = par::catch(|| (d.run)(&input));
+            dt = dt.min(thread_cpu_ms().saturating_sub(t1));
+        }
         let (largest, total) = alloc::read();
         let case = || json!({"decoder": d.name, "input_hex": crate::drivers::hex(&input[..input.len().min(4096)]), "input_len": input.len(), "derivation": how, "index": idx});
         let nontrivial = !input.is_empty();
@@ -545,13 +562,16 @@ impl IsoSpace for Space {
             }
             Ok(()) => st.case(&(di, &input), nontrivial, "returned"),
         }
-        if input.len() <= 200_000 && (largest > ALLOC_SINGLE_LIMIT || total > ALLOC_TOTAL_LIMIT) {
+        if input.len() <= 200_000 && (largest > ALLOC_SINGLE_LIMIT + 32 * input.len() || total > ALLOC_TOTAL_LIMIT) {
             st.finding(Finding::new(format!("decoder={}/kind=alloc-out-of-proportion", d.name), format!("{}-byte input made {} request {} bytes in one allocation ({} in total)", input.len(), d.name, largest, total), case()));
         }
         if dt > SLOW_MS && input.len() <= 200_000 {
-            st.finding(Finding::new(format!("decoder={}/kind=time-out-of-proportion", d.name), format!("{}-byte input kept {} busy for {dt} ms", input.len(), d.name), case()));
+            st.finding(Finding::new(format!("decoder={}/kind=time-out-of-proportion", d.name), format!("{}-byte input kept {} busy for {dt} ms of CPU time (twice)", input.len(), d.name), case()));
         }
         st.max("max_single_allocation", largest as u64);
+        if input.len() <= 1024 {
+            st.max("max_single_allocation_for_inputs_up_to_1KiB", largest as u64);
+        }
         if idx % 50_021 == 0 {
             st.sample(case);
         }
@@ -565,7 +585,9 @@ impl IsoSpace for Space {
         format!("decoder={}", self.decs[di].name)
     }
     fn limit_ms(&self) -> u64 {
-        5000
+        // wall-clock watchdog for cases that never return; generous, the CPU-time oracle above
+        // judges "out of proportion"
+        20_000
     }
 }
 
@@ -629,6 +651,12 @@ fn hid_alphabet(full: bool) -> Vec<Vec<u8>> {
 
 type Snap = Vec<(u32, u8, u8, usize, Vec<u8>)>;
 
+/// a handler may keep what it received (vectors grow by doubling, the map has some overhead) – not
+/// what a length field merely announces
+fn hid_alloc_limit(received: usize) -> usize {
+    16 * received + 2048
+}
+
 pub fn hid_search(tier: Tier, threads: usize, stats: &mut Stats) -> (u64, u64) {
     // level-synchronous BFS; a state is a real ChannelHandler; dedup on the hook snapshot
     let plan: Vec<(bool, usize)> = match tier {
@@ -654,6 +682,8 @@ pub fn hid_search(tier: Tier, threads: usize, stats: &mut Stats) -> (u64, u64) {
                     let (largest, _) = alloc::read();
                     let mut full_hist: Vec<u16> = hist.clone();
                     full_hist.push(ai as u16);
+                    // memory in proportion to what was *received* so far on this handler
+                    let received: usize = full_hist.iter().map(|&i| alphabet[i as usize].len()).sum();
                     let case = || json!({"hid_alphabet_full": full, "packets": full_hist.iter().map(|&i| crate::drivers::hex(&alphabet[i as usize])).collect::<Vec<_>>()});
                     match r {
                         Err(p) => {
@@ -662,8 +692,8 @@ pub fn hid_search(tier: Tier, threads: usize, stats: &mut Stats) -> (u64, u64) {
                         }
                         Ok(out) => {
                             st.case(&(full, &full_hist), true, if out.is_some() { "hid:message" } else { "hid:none" });
-                            if largest > (1 << 20) {
-                                st.finding(Finding::new("decoder=hid::ChannelHandler/kind=alloc-out-of-proportion", format!("a {}-byte packet made the handler allocate {largest} bytes at once", pkt.len()), case()));
+                            if largest > hid_alloc_limit(received) {
+                                st.finding(Finding::new("decoder=hid::ChannelHandler/kind=alloc-out-of-proportion", format!("a {}-byte packet made the handler allocate {largest} bytes at once after only {received} bytes were received in total", pkt.len()), case()));
                             }
                             results.lock().unwrap().push((k, ai, n));
                         }
@@ -696,11 +726,13 @@ pub fn hid_replay(case: &Value) -> Result<Vec<Finding>, String> {
     let pkts: Vec<String> = serde_json::from_value(case["packets"].clone()).map_err(|e| e.to_string())?;
     let mut h = ChannelHandler::default();
     let mut out = vec![];
+    let mut received = 0usize;
     for (i, p) in pkts.iter().enumerate() {
         let bytes: Vec<u8> = (0..p.len() / 2).map(|k| u8::from_str_radix(&p[2 * k..2 * k + 2], 16).unwrap_or(0)).collect();
         alloc::reset();
         let r = par::catch(|| h.handle_packet(&bytes).map(|m| m.payload.len()));
         let (largest, _) = alloc::read();
+        received += bytes.len();
         let last = i + 1 == pkts.len();
         match r {
             Err(p) => {
@@ -711,7 +743,7 @@ pub fn hid_replay(case: &Value) -> Result<Vec<Finding>, String> {
                 }
             }
             Ok(_) => {
-                if last && largest > (1 << 20) {
+                if last && largest > hid_alloc_limit(received) {
                     out.push(Finding::new("decoder=hid::ChannelHandler/kind=alloc-out-of-proportion", format!("{largest}"), case.clone()));
                 }
             }
@@ -800,7 +832,7 @@ pub fn run(ctx: &Ctx) -> Result<Run, String> {
     let ndec = sp.decs.len();
     let mut run = Run::from_stats(
         "exploration",
-        "for each of 27 public decoders (CTAP2 CBOR messages, authenticator data, WebAuthn JSON, base64, U2F raw messages, COSE-key converter, fingerprints, asset links, RP-ID verification, public-suffix lookups): (1) all byte strings up to length 2 (3 thorough) / all strings over an 8-symbol alphabet up to length 5 (7 thorough); (2) every single deviation of valid seed encodings of every message type: truncation at every position, every byte value at every position (CBOR/binary; a 17-symbol menu for JSON/text), and splices at every position of CBOR heads of every major type with declared lengths 2^8..2^64-1 / indefinite, 300- and 100000-deep nesting, JSON structure/number/escape fragments, long and dotted labels (thorough: all pairs of byte-level deviations on short seeds); run in isolated worker processes with a counting allocator (single request > 16 MiB or > 256 MiB in total = out of proportion; > 1 GiB refused), 8 MiB stack, per-case watchdog; (2b) COSE keys built as structs (0..2 entries per coordinate from a menu of lengths and types, three label orders, repeated labels included) given to the converter directly; (3) CTAPHID: BFS over packet sequences on the real ChannelHandler (alphabet: 2 channels x 8 init heads + 4 continuation sequence numbers x 13 packet sizes), deduplicated on the hook snapshot. Non-trivial = distinct non-empty input",
+        "for each of 27 public decoders (CTAP2 CBOR messages, authenticator data, WebAuthn JSON, base64, U2F raw messages, COSE-key converter, fingerprints, asset links, RP-ID verification, public-suffix lookups): (1) all byte strings up to length 2 (3 thorough) / all strings over an 8-symbol alphabet up to length 5 (7 thorough); (2) every single deviation of valid seed encodings of every message type: truncation at every position, every byte value at every position (CBOR/binary; a 17-symbol menu for JSON/text), and splices at every position of CBOR heads of every major type with declared lengths 2^8..2^64-1 / indefinite, 300- and 100000-deep nesting, JSON structure/number/escape fragments, long and dotted labels (thorough: all pairs of byte-level deviations on short seeds); run in isolated worker processes with a counting allocator (single request > 4 MiB + 32 x input length, or > 256 MiB in total = out of proportion; > 1 GiB refused), 8 MiB stack, per-case watchdog; (2b) COSE keys built as structs (0..2 entries per coordinate from a menu of lengths and types, three label orders, repeated labels included) given to the converter directly; (3) CTAPHID: BFS over packet sequences on the real ChannelHandler (alphabet: 2 channels x 8 init heads + 4 continuation sequence numbers x 13 packet sizes), deduplicated on the hook snapshot. Non-trivial = distinct non-empty input",
         true,
         stats,
     );
